@@ -107,8 +107,10 @@ let handle (line:string) : string =
       let target_hits (r : q list * q list array) = fst r in
       let occ_hits (o:int) (r : q list * q list array) = (snd r).(o) in
       b2s (rays_visible target_hits occ_hits d batches (List.init nocc (fun i -> i)))
-  | "OBJ" ->
-      (* object pipeline: local-frame vertices + edges -> augmented vertices, flags, windows, ray grid *)
+  | "OBJ" | "OBJDIAG" as cmd ->
+      (* object pipeline: local-frame vertices + edges -> augmented vertices, flags, windows, ray grid
+         (object_windows = windows_of_angles . object_angles, evaluated in two steps to count the added vertices);
+         OBJDIAG: distances of the discrete decisions from their thresholds (asked for only after a disagreement) *)
       let h = next_q () in let v = next_q () in
       let mode = next () in
       let p1 = next_q () in let p2 = next_q () in
@@ -117,19 +119,20 @@ let handle (line:string) : string =
       let ne = next_int () in
       let edges = times ne (fun () -> let i = next_int () in let j = next_int () in (verts.(i), verts.(j))) in
       let vl = Array.to_list verts in
+      let angs = object_angles pi_q o_atan2 o_asin o_norm vl edges in
+      let nextra = List.length angs - nv in
+      if cmd = "OBJDIAG" then begin
+        let fmin = List.fold_left Float.min infinity and fmax = List.fold_left Float.max neg_infinity in
+        let azs = List.map (fun (a, _) -> float_of_q a) angs and alts = List.map (fun (_, b) -> float_of_q b) angs in
+        let back a = if a >= 0.0 then a -. Float.pi else a +. Float.pi in
+        let ys = List.filter_map (fun e -> match edge_cross e with Some y -> Some (Float.abs (float_of_q y)) | None -> None) edges in
+        let minx = fmin (List.map (fun w -> Float.abs (float_of_q w.vx)) vl) in
+        Printf.sprintf "%h %h %h %h %h %h %h %h" (fmin azs) (fmax azs) (fmin alts) (fmax alts)
+          (fmin (List.map back azs)) (fmax (List.map back azs)) (fmin ys) minx
+      end else
       let (ahead, behind) = crosses edges in
-      let aug = augment vl edges in
-      let nextra = List.length aug - nv in
-      let angs = List.map (sph pi_q o_atan2 o_asin o_norm) aug in
-      let fmin = List.fold_left Float.min infinity and fmax = List.fold_left Float.max neg_infinity in
-      let azs = List.map (fun (a, _) -> float_of_q a) angs and alts = List.map (fun (_, b) -> float_of_q b) angs in
-      let back a = if a >= 0.0 then a -. Float.pi else a +. Float.pi in
-      let ys = List.filter_map (fun e -> match edge_cross e with Some y -> Some (Float.abs (float_of_q y)) | None -> None) edges in
-      let minx = fmin (List.map (fun w -> Float.abs (float_of_q w.vx)) vl) in
-      let diag = Printf.sprintf "%s %s %d %h %h %h %h %h %h %h %h" (b2s ahead) (b2s behind) nextra
-                   (fmin azs) (fmax azs) (fmin alts) (fmax alts) (fmin (List.map back azs)) (fmax (List.map back azs))
-                   (fmin ys) minx in
-      (match object_windows pi_q o_atan2 o_asin o_norm h v vl edges with
+      let diag = Printf.sprintf "%s %s %d" (b2s ahead) (b2s behind) nextra in
+      (match windows_of_angles pi_q h v edges angs with
        | None -> "NONE " ^ diag
        | Some ws ->
          let (rch, rcv, altscale) =
